@@ -10,11 +10,68 @@ import (
 	"golang.org/x/tools/go/ssa"
 )
 
+// readerBody: the function that does the work of f when f merely forwards (`return h(args…)`,
+// one block); with the forwarding call. Otherwise f itself.
+func readerBody(f *ssa.Function) (*ssa.Function, *ssa.Call) {
+	if f == nil || len(f.Blocks) != 1 {
+		return f, nil
+	}
+	rets := plainReturnsOf(f)
+	if len(rets) != 1 || len(rets[0].Results) == 0 {
+		return f, nil
+	}
+	var fwd *ssa.Call
+	for i, res := range rets[0].Results {
+		var c *ssa.Call
+		switch x := res.(type) {
+		case *ssa.Extract:
+			if cc, ok := x.Tuple.(*ssa.Call); ok && x.Index == i {
+				c = cc
+			}
+		case *ssa.Call:
+			if len(rets[0].Results) == 1 {
+				c = x
+			}
+		}
+		if c == nil || (fwd != nil && fwd != c) {
+			return f, nil
+		}
+		fwd = c
+	}
+	h := rawStaticCallee(fwd)
+	if h == nil || len(h.Blocks) == 0 || gp == nil || !gp.inMod(h) {
+		return f, nil
+	}
+	return originFn(h), fwd
+}
+
+// isBookmarkRead: c reads the bookmark database — Context.ReadBookmarks, or the function an
+// implementation of it forwards to.
+func (p *Prog) isBookmarkRead(c ssa.CallInstruction) bool {
+	if c == nil {
+		return false
+	}
+	if n, _, _, _ := methodCallOf(c); n == "ReadBookmarks" {
+		return true
+	}
+	g := rawStaticCallee(c)
+	if g == nil {
+		return false
+	}
+	for _, impl := range p.implsOf("klog/app", "Context", "ReadBookmarks") {
+		if body, fwd := readerBody(impl); fwd != nil && body == originFn(g) {
+			return true
+		}
+	}
+	return false
+}
+
 // P19-absent-db — an absent bookmark database is an empty one; any other read failure is returned.
 func ruleP19AbsentDb(p *Prog, r *Report) {
 	const rule = "P19-absent-db"
-	for _, f := range p.implsOf("klog/app", "Context", "ReadBookmarks") {
-		key := fnName(f)
+	for _, impl := range p.implsOf("klog/app", "Context", "ReadBookmarks") {
+		key := fnName(impl)
+		f, _ := readerBody(impl)
 		var read ssa.CallInstruction
 		eachInstr(f, func(in ssa.Instruction) {
 			if c, ok := in.(ssa.CallInstruction); ok && staticCallee(c) != nil && fnBase(staticCallee(c)) == "ReadFile" {
